@@ -24,6 +24,8 @@ func (r *Run) c13Scenario(trans string, v, Q, N int, slow bool, closeWhileBusy b
 	g := r.rng
 	var mu sync.Mutex
 	var calls []hcall
+	var kept []*protocol.Packet // every packet a handler was given, and what its body was at that moment
+	var keptBody []string
 	entered := make(chan struct{}, 1)
 	release := make(chan struct{})
 	first := true
@@ -38,6 +40,8 @@ func (r *Run) c13Scenario(trans string, v, Q, N int, slow bool, closeWhileBusy b
 					blk := slow && first
 					first = false
 					calls = append(calls, hcall{h, p.CMD(), hx(p.Body)})
+					kept = append(kept, p)
+					keptBody = append(keptBody, hx(p.Body))
 					mu.Unlock()
 					if blk {
 						entered <- struct{}{}
@@ -149,6 +153,16 @@ func (r *Run) c13Scenario(trans string, v, Q, N int, slow bool, closeWhileBusy b
 	}
 	drops := s.tc.log.count("drop packet for channel full")
 	taken := s.tc.log.count("got packet")
+	// a packet handed to a handler must not change afterwards (its body may not alias a receive buffer that is reused)
+	mu.Lock()
+	for i, p := range kept {
+		if hx(p.Body) != keptBody[i] {
+			r.violate(Violation{What: "the body of a delivered push changed after later frames were received (it aliases a reused receive buffer)",
+				Case: fmt.Sprintf("%s v%d Q=%d N=%d: delivery %d was %s, is now %s", trans, v, Q, N, i, keptBody[i], hx(p.Body))})
+			break
+		}
+	}
+	mu.Unlock()
 	out := fmt.Sprintf("calls=%s drops=%d taken=%d", callStr, drops, taken)
 	r.emit(fmt.Sprintf("dp.run %d 50:0.1,51:2,52:3.4.5,1:6,2:6,3:6 %s", Q, strings.Join(events, " ")), out, true)
 	r.count(fmt.Sprintf("c13.%s.Q%d.slow%v.close%v", trans, Q, slow, closeWhileBusy))
